@@ -305,13 +305,19 @@ class StatusMonitor:
                             self.log.warning("Unable to generate status details file: %s due to %s - "
                                              "StatusMonitor will not update output/status_details.json" % (
                                                  tempname, e))
-
-                        try:
-                            os.rename(tempname, status_details_file)
-                        except OSError as e:
-                            self.log.log(15, traceback.format_exc())
-                            self.log.warning("Error updating status details file %s (cannot rename due to %s) - "
-                                             "StatusMonitor will not update output/status_details.json" % e)
+                            # VV: Never publish a partially written file, discard it instead
+                            try:
+                                os.remove(tempname)
+                            except OSError:
+                                pass
+                        else:
+                            try:
+                                os.rename(tempname, status_details_file)
+                            except OSError as e:
+                                self.log.log(15, traceback.format_exc())
+                                self.log.warning("Error updating status details file %s (cannot rename due to %s) - "
+                                                 "StatusMonitor will not update output/status_details.json" % (
+                                                     status_details_file, e))
                 except Exception as e:
                     self.log.warning("Unexpected error %s while generating status details file - "
                                      "StatusMonitor will not update output/status_details.json" % e)
